@@ -3,6 +3,7 @@ package main
 // Flow-first fuzz of every route of both routers (IRoute cases).
 
 import (
+	jose "github.com/go-jose/go-jose/v4"
 	"crypto/sha256"
 	"encoding/json"
 	"fmt"
@@ -245,7 +246,7 @@ func (g *gen) evilToken(l live) (string, string) {
 	case 0:
 		return mk("null"), "f=F02"
 	case 1:
-		return mk(" null "), "f=F02"
+		return mk(drv.Pick(r, []string{" null ", " null", "null ", "null\n", "\tnull", "\r\nnull\r\n", " [] ", " 1", "\"x\" ", " true"})), "f=F02"
 	case 2:
 		return mk(`{` + live + `,"aud":["web",1]}`), "f=F01"
 	case 3:
@@ -311,7 +312,7 @@ func (g *gen) bases(l live) []base {
 	return []base{
 		{"authorize", "/authorize", "GET", aq, nil, "", 1},
 		{"authorize_hint", "/authorize", "GET", append(append([]pair{}, aq...), pair{k: "id_token_hint", v: l.idToken}, pair{k: "prompt", v: "login"}, pair{k: "max_age", v: "10"}, pair{k: "ui_locales", v: "de en"}), nil, "", 1},
-		{"authorize_reqobj", "/authorize", "GET", append(append([]pair{}, aq...), pair{k: "request", v: g.assertion()}), nil, "", 1},
+		{"authorize_reqobj", "/authorize", "GET", g.reqObjQuery(), nil, "", 1},
 		{"callback", "/authorize/callback", "GET", []pair{{k: "id", v: l.reqID}}, nil, "", 2},
 		{"token_code", "/oauth/token", "POST", codeForm, codeBasic, "", 3},
 		{"token_refresh", "/oauth/token", "POST", []pair{{k: "grant_type", v: gtRefresh}, {k: "refresh_token", v: l.rt}, {k: "scope", v: "openid"}}, web, "", 4},
@@ -650,4 +651,28 @@ func routeCases(w *emit.Writer, g *gen, n int) {
 				"fault": fmt.Sprintf("%d/%s/%s hit=%v", flt.at, flt.method, flt.kind, res.hit), "provider": x.name, "headers": hdrDigest},
 		})
 	}
+}
+
+// an authorization request of the private_key_jwt client with a request object (claims consistent in two of three cases,
+// mostly signed with the registered key; optionally overriding parameters of the outer request)
+func (g *gen) reqObjQuery() []pair {
+	r := g.r
+	cid := "pkjwt"
+	doc := g.requestObjectClaims(cid, !r.Chance(1, 3))
+	if r.Chance(1, 2) {
+		doc.M = append(doc.M, drv.Pick(r, []kv{{"scope", jstr("openid profile")}, {"redirect_uri", jstr("https://pk.example.com/cb")}, {"redirect_uri", jstr("https://evil.example/cb")},
+			{"max_age", jint(0)}, {"max_age", jnull()}, {"prompt", jstr("none login")}, {"ui_locales", jstr("de zz-ZZ")}, {"id_token_hint", jstr("a.b.c")}, {"response_mode", jstr("form_post")},
+			{"code_challenge", jstr("x")}, {"acr_values", jstr("a b")}, {"login_hint", jstr("\xff")}, {"display", jstr("page")}, {"scope", jarr(jstr("openid"))}, {"max_age", jstr("x")}}))
+	}
+	payload := doc.Bytes(r, true)
+	var tok string
+	switch r.IntN(5) {
+	case 0:
+		tok = sign(opfix.ECKey("someone-else"), jose.ES256, "k1", payload)
+	case 1:
+		tok = b64.EncodeToString([]byte(`{"alg":"none"}`)) + "." + b64.EncodeToString(payload) + "."
+	default:
+		tok = sign(opfix.ECKey("client-pkjwt"), jose.ES256, "k1", payload)
+	}
+	return []pair{{k: "client_id", v: cid}, {k: "redirect_uri", v: flowClients[cid].redirect}, {k: "response_type", v: "code"}, {k: "scope", v: "openid"}, {k: "state", v: "s"}, {k: "request", v: tok}}
 }
